@@ -281,10 +281,32 @@ def o_partial(case):
     mech = case["mech"]
     if mech == "wif" and not S.COINS[B.coin]["wif"]:
         mech = "lookup"
+    if mech == "keychain-live" and _uncompressed(B):
+        mech = "keychain"        # a keychain indexes hierarchical keys by their compressed hash160 only
     std = S.standard_flags(B.coin)
     tx = B.pycoin_tx()
     txd = B.ref_tx()
     memo = {}
+    live = None
+    if mech == "keychain-live":
+        # ONE keychain for the whole history, as a wallet would keep it: the public parents of every listed key and the
+        # redeem / witness scripts are registered up front, private parents arrive pass by pass.  A pass therefore
+        # looks up cosigner keys whose secrets are not there yet, and must find them once they have been added.
+        net = B.net
+        masters = [net.keys.bip32_seed(s) for s in S.SEEDS]
+
+        def group(k):
+            mi, p = S.ring_path(k)
+            return (mi, p[0])
+
+        def parent(k):
+            mi, p = S.ring_path(k)
+            c = p[0]
+            return masters[mi].subkey_for_path("%d%s" % (c & 0x7fffffff, "H" if c >= 0x80000000 else ""))
+        live = {"kc": net.keychain(), "groups": set(), "group": group, "parent": parent}
+        for k in inp.keys:
+            live["kc"].add_key_paths(parent(k).public_copy(), [str(k)])
+        live["kc"].add_p2s_scripts(B.all_scripts())
     offered = set()          # positions of listed keys that have been offered to the signer so far
     types_used = set()
     frozen = None            # snapshot taken when the input became valid
@@ -316,7 +338,17 @@ def o_partial(case):
         last = (name, keys_pos, ring, ht)
         labels.append("op=" + op[0])
         before = S.snapshot(tx)
-        S.pycoin_sign(B, tx, mech, ring, ht, idx_set=[pos], uncompressed=_uncompressed(B))
+        if live is not None:
+            for k in ring:
+                if live["group"](k) not in live["groups"]:
+                    live["groups"].add(live["group"](k))
+                    live["kc"].add_secret(live["parent"](k))
+            kw = {} if ht is None else {"hash_type": ht}
+            tx.sign(live["kc"], p2sh_lookup=live["kc"], tx_in_idx_set={pos}, **kw)
+            # a private parent unlocks every listed key below it, not only the one that was asked for
+            keys_pos = [p for p, k in enumerate(inp.keys) if live["group"](k) in live["groups"]]
+        else:
+            S.pycoin_sign(B, tx, mech, ring, ht, idx_set=[pos], uncompressed=_uncompressed(B))
         after = S.snapshot(tx)
         if [p for p in keys_pos if p not in offered] and len(offered) < inp.m:
             types_used.add(S.effective_hash_type(B.coin, ht))      # this pass adds at least one signature
@@ -380,8 +412,8 @@ def s_partial():
         p = pos % (len(ins) + 1)
         ins.insert(p, msin)
         return {"tx": dict(tx, ins=ins), "pos": p, "mech": mech, "ops": ops}
-    return st.builds(mk, S.s_tx(1, 1, kinds=["p2pkh"]), ms, st.lists(other, max_size=2), st.integers(0, 2), st.sampled_from(S.MECHS),
-                     st.lists(op, min_size=1, max_size=8))
+    return st.builds(mk, S.s_tx(1, 1, kinds=["p2pkh"]), ms, st.lists(other, max_size=2), st.integers(0, 2),
+                     st.sampled_from(S.MECHS + ["keychain-live", "keychain-live"]), st.lists(op, min_size=1, max_size=8))
 
 
 # =========================================================================================== (m, n) grid, one key at a time
